@@ -40,7 +40,7 @@ def run_verus(unit_rs, rlimit=None, seed=None):
     cmd = ['verus', unit_rs, '--output-json', '--time-expanded', '--multiple-errors', '100', '--error-format=json',
            '--num-threads', str(NCPU)]
     if rlimit: cmd += ['--rlimit', str(rlimit)]
-    if seed is not None: cmd += ['-V', 'smt-option=smt.random_seed=%d' % seed]
+    if seed is not None: cmd += ['--smt-option', 'smt.random_seed=%d' % seed]
     t0 = time.time()
     r = sh(cmd, cwd=os.path.dirname(unit_rs))
     wall = time.time() - t0
@@ -176,10 +176,12 @@ def verify_unit(unit, tier):
         if not any(u.startswith('resource limit') for u in cl2['undecided']):
             res, cl = res2, cl2
     stability = None
-    if tier == 'thorough' and not cl['failed'] and not cl['undecided']:
+    if tier == 'thorough' and not cl['undecided']:
+        # proof stability: a second run with another Z3 seed and a doubled resource limit must give the same verdict
         res2 = run_verus(out_rs, rlimit=20, seed=12345)
         cl2 = classify(unit, meta, res2)
-        stability = {'second_seed_ok': (not cl2['failed'] and not cl2['undecided']), 'wall': res2['wall']}
+        same = sorted(set(f['ob'] for f in cl['failed'])) == sorted(set(f['ob'] for f in cl2['failed'])) and not cl2['undecided']
+        stability = {'second_seed_same_verdict': same, 'wall': round(res2['wall'], 1)}
     r = {'unit': unit, 'cmd': res['cmd'], 'wall': res['wall'], 'classified': cl, 'fn_times': fn_times(res),
          'trusted_scan': scan_trusted(text), 'sha': h, 'cached': False, 'stability': stability,
          'smt_ms': ((res.get('json') or {}).get('times-ms') or {}).get('smt', {}).get('total'),
@@ -378,6 +380,47 @@ def main():
         failed_set = set(f['full'] for f in failed_all)
         b[pid] = {k: True for k in obligations_seen if k not in failed_set}
         json.dump(b, open(os.path.join(ROOT, 'specs', 'baseline_obligations.json'), 'w'), indent=1, sort_keys=True)
+    # ---- thorough tier: things that can only lower confidence in the evidence, never raise an alarm ----
+    thorough = {}
+    if tier == 'thorough':
+        # (a) seeded-fault self-test restricted to this property's catalogue entries
+        try:
+            import selftest
+            mine = [m['name'] for m in selftest.CAT if m.get('property') == pid]
+            if mine:
+                res = selftest.run(mine)
+                thorough['selftest'] = {'caught': len([r for r in res if r['status'] == 'caught']), 'total': len(res),
+                                        'details': [{'name': r['name'], 'status': r['status'], 'failed': r.get('failed', [])[:4]} for r in res]}
+        except Exception as e:
+            thorough['selftest_error'] = repr(e)
+        # (b) run-time twin of the property statements against the unchanged real code (consistency of the
+        #     specification vocabulary with the code; DESIGN section 7)
+        if pid in ('C01', 'C02', 'C05', 'C06', 'C07', 'C08', 'C11', 'C12', 'C19'):
+            try:
+                import replaytool, refmodel
+                ok, err = replaytool.build_replay_bin()
+                if ok:
+                    w, nh = refmodel.search(seed, 400)
+                    thorough['twin'] = {'histories': nh, 'mismatch': (w or {}).get('why')}
+                    if w:
+                        undecided.append('the run-time twin of the property statements disagrees with the real code although every obligation is discharged: %s (history in evidence)' % w['why'])
+                        thorough['twin']['witness_lines'] = w.get('lines')
+            except Exception as e:
+                thorough['twin_error'] = repr(e)
+        if pid in ('C09', 'C10', 'C12', 'C13'):
+            try:
+                import replaytool, witness
+                ok, err = replaytool.build_replay_bin()
+                if ok:
+                    w = witness.gen_framing(pid, {'full': 'codec_dec/decode'})
+                    thorough['framing_grid'] = {'frames': 37 * 4 * 3 * 3, 'mismatch': (w or {}).get('what')}
+                    if w: undecided.append('framing grid disagrees with the real code although every obligation is discharged: %s' % w.get('what'))
+            except Exception as e:
+                thorough['framing_grid_error'] = repr(e)
+        if undecided and rc == 0:
+            for u in undecided:
+                print('UNDECIDED property=%s reason=%s' % (pid, u.replace('\n', ' ')[:600]))
+            rc = 2
     # vacuity guard
     if n_obl == 0:
         print('UNDECIDED property=%s reason=zero obligations generated' % pid); rc = max(rc, 2)
@@ -404,6 +447,7 @@ def main():
             'undecided': undecided,
             'samples': samples,
             'solver_time_ms': solver_ms,
+            'thorough': thorough,
             'extraction_rules': 'R1 log macros deleted; R2 format! in io::Error -> ""; R3 async/.await dropped; R4 &self->&mut self and Arc<dyn>/Atomic field stand-ins; R5 derives cut (R5b: Structural on field-less enums); R6 static->const; R7 use lines replaced; R9 cfg(test) dropped; R11 visibility widened to pub; see DESIGN §3',
         },
         'assumptions': pc.get('assumptions', []) + CONF.get('assumptions_common', []),
